@@ -308,8 +308,55 @@ def run_utf8_flag(ck, F):
                            "consulted, so a BINARY column read as a string type is built without UTF-8 validation" % (fn["id"], srcs), "%s:%s" % (fn["file"], st[3]))
 
 
+DECODER_FILES = ["arrow-ipc/src/reader.rs", "arrow-ipc/src/reader/stream.rs", "arrow-ipc/src/convert.rs", "arrow-ipc/src/compression.rs", "arrow-flight/src/decode.rs",
+                 "arrow-flight/src/utils.rs", "parquet/src/parquet_thrift.rs", "parquet/src/file/metadata/*.rs", "parquet/src/file/metadata/thrift/*.rs",
+                 "parquet/src/file/serialized_reader.rs", "parquet/src/column/reader.rs", "parquet/src/column/reader/decoder.rs", "parquet/src/encodings/decoding.rs",
+                 "parquet/src/encodings/rle.rs", "parquet/src/util/bit_util.rs", "parquet/src/compression.rs", "parquet/src/arrow/array_reader/*.rs",
+                 "parquet/src/arrow/buffer/*.rs", "parquet/src/arrow/schema/*.rs", "arrow-avro/src/reader/*.rs", "arrow-avro/src/codec.rs", "arrow-csv/src/reader/*.rs",
+                 "arrow-json/src/reader/*.rs", "parquet-variant/src/decoder.rs", "parquet-variant/src/variant/*.rs", "parquet-variant/src/variant.rs", "arrow-data/src/data.rs"]
+CENSUS_CRATES = ["arrow_ipc", "arrow_flight", "parquet", "arrow_avro", "arrow_csv", "arrow_json", "parquet_variant", "arrow_data"]
+
+
+def rejection_census(F):
+    """{crate: {fn id: number of rejecting decisions}} over the decoder files the property is anchored in"""
+    import fnmatch
+    out = {}
+    for cn in CENSUS_CRATES:
+        per = {}
+        for fn in F.crate(cn).fns:
+            if "mir" not in fn or not any(fnmatch.fnmatch(fn["file"], pat) for pat in DECODER_FILES):
+                continue
+            n = flow.rejection_points(Body(fn))
+            if n:
+                per[flow.norm(fn["id"])] = n
+        out[cn] = per
+    return out
+
+
+def run_census(ck, F):
+    import json, os
+    tab = json.load(open(os.path.join(os.path.dirname(__file__), "tables", "c08_rejections.json")))
+    ck.rule("C08.rejections-kept", "every decision of the reference tree's decoders that rejects input (a branch with one side leading only to Err / panic and another "
+            "still able to succeed, `?` included) is still there: per function, and -- so that moving or renaming code is not reported -- only if the crate's total "
+            "dropped as well", floor=sum(len(v) for v in tab.values()))
+    now = rejection_census(F)
+    for cn, ref in sorted(tab.items()):
+        cur = now.get(cn, {})
+        tot_ref, tot_cur = sum(ref.values()), sum(cur.values())
+        ck.count("rejections_%s" % cn, tot_cur)
+        dropped = [(fid, n, cur.get(fid, 0)) for fid, n in sorted(ref.items()) if cur.get(fid, 0) < n]
+        for fid, n in sorted(ref.items()):
+            if cur.get(fid, 0) >= n or tot_cur >= tot_ref:
+                ck.ok("C08.rejections-kept", fid, "%d rejecting decision(s) (reference %d)" % (cur.get(fid, 0), n))
+            else:
+                fn = F.resolve(fid)
+                ck.bad("C08.rejections-kept", fid, "%s has %d rejecting decision(s), the reference tree has %d, and the total over %s fell from %d to %d: an input check was "
+                       "removed from this decoder" % (fid, cur.get(fid, 0), n, cn, tot_ref, tot_cur), ("%s:%s" % (fn["file"], fn["line"])) if fn else None)
+
+
 def run(ck, tier):
     F = factsmod.Facts("ws")
+    run_census(ck, F)
     run_utf8_flag(ck, F)
     run_csv(ck, F)
     run_ipc_gating(ck, F)
